@@ -20,7 +20,7 @@ CLAIMED = {
         "LRA relaxation. Round trips log(exp a)=a (|w|<pi) and exp(log g)=g, |log g|<=pi are decided by running the real log on the symbolic output of the real exp "
         "and vice versa.",
    note=TB + "; rotation boxes from the path condition, translations <= 1e3; round trips in quick tier for SO2,SO3,SE2,C1,SE3 (others thorough); obligations exceeding "
-        "the per-obligation time budget are reported undecided, never as success; floating-point cancellation next to the switch (layer E) not claimed.",
+        "the per-obligation time budget are reported undecided, never as success; floating-point cancellation next to the switch (layer E) not claimed. Quick additionally decides log(exp(a)) = a for SE_K_3<3>; round trips are decided RELATIVE to the rotation norm on series paths and replayed natively relative to |a|.",
    ref="DESIGN 4/C02", technique="symbolic execution of LLVM IR + SMT (z3 NRA identities, LRA-relaxed bounds with Taylor enclosures)"),
  "C03": dict(
    text="Bounded symbolic check (layer R): hat, vee, Ad, ad, lie_bracket of every group and Bundle shape executed symbolically; z3 decides for all elements / tangents "
@@ -51,7 +51,7 @@ CLAIMED = {
         "std::variant (each alternative), AnyManifold and SubManifold (all 8 fixed-dimension subsets of SO3/SE2/Vector3d) compared entry-wise with the element "
         "operation; cast<double> and copies decided field-wise (term identity), origin kept, only free directions move.",
    note=TB + "; quick axioms on SO2,SO3,SE2,C1,Vector3d (SE3, Galilei thorough); series-path axiom obligations beyond the enclosure machinery are reported undecided; "
-        "AnyManifold Default/cast (documented to throw) outside.",
+        "AnyManifold Default/cast (documented to throw) outside. Also std::vector<VectorXd> with element sizes (3,1,2) and AnyManifold around run-time-dof values (VectorXd(3), std::vector<SO3>(2)).",
    ref="DESIGN 4/C07", technique="symbolic execution of LLVM IR (incl. heap containers, virtual dispatch) + SMT"),
  "C16": dict(
    text="Structural bounded check: every operation through Map<G>/Map<const G> over a caller buffer with guard scalars (view at scalar offsets 3 and 1) is executed "
@@ -70,7 +70,7 @@ CLAIMED = {
         "are built once, then every const operation is executed symbolically (evaluation time symbolic over the whole real line); the exact store set of every path must not "
         "touch any object that existed before the call except the thread-private output and guard-protected once-only initialisation. Disjoint write sets + read-only shared "
         "data => every interleaving of any number of threads is race free and yields sequential results.",
-   note=TB + "; __cxa_guard runtime and hardware memory model trusted; diff::dr/minimize/fit on private data are covered by their own checks' write sets, not here.",
+   note=TB + "; __cxa_guard runtime and hardware memory model trusted; diff::dr/minimize/fit on private data are covered by their own checks' write sets, not here. The sparse operation covers dr_exp, ad, d2r_exp, d2r_expinv (dense fall-back) and dr_expinv _sparse into thread-private outputs.",
    ref="DESIGN 4/C18", technique="symbolic execution of LLVM IR with exact write-set tracking (footprint non-interference)"),
  "C20": dict(
    text="Bounded symbolic / exact check: basis coefficient matrices (compile-time constants read from the IR run) K<=6 quick / <=10 thorough decided by z3 against the definitions "
@@ -79,7 +79,7 @@ CLAIMED = {
         "binary_interval_search on EVERY sorted real range of length <=4 (<=6 thorough) and every query: each explored path's result index must be entailed by the documented "
         "cases; integrate_absolute_polynomial on every path against a sign-pattern certificate of the true integral (z3 NRA, counterexamples replayed natively).",
    note=TB + "; constants snapped to the simplest rational within half an ulp; integrate_absolute_polynomial box [t0,t1] in [0,1], |A|,|B|,|C|<=1e3 and NRA queries that time out "
-        "are reported undecided; bit-precise CBMC lane for the search not built (layer R only).",
+        "are reported undecided; bit-precise CBMC lane for the search not built (layer R only). monomial_integral for every K<=10 and order 0..K+1 in both tiers; integrate_absolute_polynomial paths left unknown by z3 are searched over stratified root configurations and replayed natively.",
    ref="DESIGN 4/C20", technique="symbolic execution of LLVM IR + SMT (z3 NRA/LRA), exact rational definitions"),
  "C11": dict(
    text="Bounded symbolic check: cspline_eval_vs/gs and the Jacobians cspline_eval_dg_dvs/dgs executed symbolically (u and all control data symbolic) and decided against "
@@ -93,7 +93,7 @@ CLAIMED = {
         "(all times, crop parameters and control velocities symbolic); operator() is decided per region (before / each segment / after) against the definition; crop(ta,tb,"
         "localize) against the real evaluation of the uncropped spline at ta+s; ConstantVelocity for K=1..5, FixedCubic end conditions, concat_local/global; candidates are "
         "replayed natively.",
-   note=TB + "; N<=3 segments (crop N<=2 quick); vector-space groups only; arclength not encoded; obligations on paths the solver can neither refute nor prove are undecided.",
+   note=TB + "; N<=3 segments (crop N<=2 quick); vector-space groups only; arclength not encoded; obligations on paths the solver can neither refute nor prove are undecided. FixedCubic also on SE2 (non-commutative) with two stated rotation pairs, T=2 and symbolic translations / translational velocities.",
    ref="DESIGN 4/C12", technique="symbolic execution of LLVM IR from arbitrary invariant states (inductive step) + SMT"),
  "C13": dict(
    text="Bounded symbolic check: BSpline<K,double|Vector2d>::operator() with symbolic t0, dt>0, control points and evaluation time (interval index obtained by forking the "
@@ -135,14 +135,14 @@ CLAIMED = {
         "fully symbolic J, d, r, lambda (every LDLT pivot order is a path); z3 decides the normal equations (J^T J + lambda D^2) dx + J^T r = 0, the descent certificate "
         "|r|^2-|J dx+r|^2 = |J dx|^2 + 2 lambda |D dx|^2 (hence |J dx + r| <= |r|), dphi through the symbolic lambda-derivative of the path's own dx, lambda = 1/Delta.",
    note=TB + "; sizes 2x1 (all storages), 3x1 sparse quick; 2x2 (all storages), 4x1 thorough (3x2 and larger exceed 15 min per configuration with symbolic pivoting: outside); d >= 1e-6, lambda/Delta in [1e-6,1e6]; the 1e-8 backward error, cond<=1e8 agreement and sizes "
-        "up to 40x40 are floating-point statements outside the claim.",
+        "up to 40x40 are floating-point statements outside the claim. Row-major sparse J in a wide (1x2) and a tall (2x1) shape added after seed C10d.",
    ref="DESIGN 4/C10", technique="symbolic execution of LLVM IR (Eigen LDLT incl. pivoting) + SMT"),
  "C14": dict(
    text="PARTIAL bounded symbolic check: the real fit_spline_1d (sparse assembly + Eigen::SparseLU for PiecewiseLinear / FixedDerCubic<1|2>, SparseLU on the full KKT system for "
         "MinDerivative<5,3,3> and <6,3,3>) is executed symbolically with symbolic increments dx_i and sampling intervals dt_i that are symbolic in [1e-2,1e2] (any ratio) for the interpolating specs and fixed to stated rationals for MinDerivative (the KKT factorisation with symbolic dt swells past 60 GB); every pivot decision is a path; z3 decides "
         "on each path that the returned Bernstein coefficients satisfy every interpolation, derivative-continuity and boundary equation written from the specification, and for MinDerivative that every coefficient is within 1e-4 |dx| of the exact rational minimiser of the documented cost.",
    note=TB + "; N<=3 segments for PiecewiseLinear, N<=2 for FixedDerCubic (N=3 with symbolic dt is attempted in thorough and runs out of its 30 min job budget: listed undecided); MinDerivative: N=1 with dt in {1, 1/2, 3} quick, N=2 with dt in {(1,1),(1/2,2),(3,1/3)} thorough; a SUPPLEMENTARY native scan (250 fits, sampling 1e-2..1e2, the property's interval ratios) evaluates every constraint in backward-error form at 1e-6 and found the KKT defect repaired in 01db3e5; NOT encoded: fit_spline on groups, fit_bspline, dubins_curve, reparameterize_spline; floating-point "
-        "conditioning is visible to the native scan only, not to the exact-arithmetic layer.",
+        "conditioning is visible to the native scan only, not to the exact-arithmetic layer. fit_spline on SO3/SE2 is covered by a SUPPLEMENTARY native scan only (40 fits: value, one-sided limits, velocity continuity, rest at the ends).",
    ref="DESIGN 13.6", technique="symbolic execution of LLVM IR (sparse LU/LDLT, every pivot order a path) + SMT"),
 }
 NA = {}
